@@ -108,15 +108,19 @@ def gen_mixfit(g, kind=None, thorough=False):
     lead = [F] if F > 0 else []
     N = int(g.rng.randint(max(D, E if integration else 0) + 2,
                           30 if kind != 'cbmm' else 12))
+    if kind != 'cbmm' and g.coin(0.05):
+        N = int(g.rng.randint(260, 600))    # size-dependent code paths
     a = {'op': 'mixfit', 'kind': kind, 'K': K, 'D': D, 'F': F, 'N': N, 'E': E}
     if kind in models.COMPLEX_OBS:
         a['obs'] = _mk(g, g.choice(['cnormal', 'cclusters']), lead + [N, D], K=K)
     elif kind == 'vmfmm':
         a['obs'] = _mk(g, g.choice(['normal', 'rclusters']), lead + [N, D], K=K)
     else:
-        a['obs'] = _mk(g, 'rclusters', lead + [N, D], K=K)
+        a['obs'] = _mk(g, 'rclusters', lead + [N, D], K=K,
+                       scale=float(g.choice([1.0, 1.0, 1e-2, 30.0])))
     if kind == 'gcacgmm':
-        a['emb'] = _mk(g, 'rclusters', lead + [N, E], K=K)
+        a['emb'] = _mk(g, 'rclusters', lead + [N, E], K=K,
+                       scale=float(g.choice([1.0, 1.0, 1e-2, 30.0])))
     if kind == 'vmfcacgmm':
         a['emb'] = _mk(g, 'unit_rows', lead + [N, E])
     start = g.choice(['array', 'array', 'array', 'num_classes'])
@@ -131,7 +135,8 @@ def gen_mixfit(g, kind=None, thorough=False):
         a['init'] = _mk(g, g.choice(['affiliation', 'affiliation_onehotish']), ishape)
     sk = g.choice(['none', 'none', 'real', 'int'])
     if sk == 'real':
-        a['saliency'] = _mk(g, 'uniform', lead + [N], low=0.1, high=2.0)
+        sc = g.choice([1.0, 1.0, 1.0, 1e-2, 1e-4])    # estimators are scale free
+        a['saliency'] = _mk(g, 'uniform', lead + [N], low=0.1 * sc, high=2.0 * sc)
     elif sk == 'int':
         a['saliency'] = _mk(g, 'integers', lead + [N], low=1, high=4)
     if kind == 'cacgmm':
@@ -190,6 +195,8 @@ def gen_distfit(g):
                      'bingham'])
     D = int(g.choice([2, 3, 4, 5])) if kind != 'bingham' else int(g.choice([2, 3]))
     N = int(g.rng.randint(D + 2, 30))
+    if kind != 'bingham' and g.coin(0.05):
+        N = int(g.rng.randint(260, 600))
     lead = [int(x) for x in g.choice([[], [], [2], [2, 3]])]
     if kind == 'bingham':
         lead = []
@@ -200,7 +207,8 @@ def gen_distfit(g):
         a['y'] = _mk(g, g.choice(['normal', 'rclusters']), lead + [N, D], K=2)
     sk = g.choice(['none', 'real', 'int', 'real'])
     if sk == 'real':
-        a['saliency'] = _mk(g, 'uniform', lead + [N], low=0.0, high=2.0)
+        sc = g.choice([1.0, 1.0, 1e-2, 1e-4])
+        a['saliency'] = _mk(g, 'uniform', lead + [N], low=0.0, high=2.0 * sc)
     elif sk == 'int':
         a['saliency'] = _mk(g, 'integers', lead + [N], low=1, high=4)
     if kind == 'gaussian':
@@ -593,6 +601,17 @@ def run_mixfit(tr, op, program):
             tr.count('estep_comparisons')
         # ---- R1
         gamma = aff if sal_b is None else aff * sal_b[..., None, :]
+        mass = gamma.sum(axis=-1)
+        if kind in models.INTEGRATION:
+            mass_emb = gamma.sum(axis=(0, 2))
+        else:
+            mass_emb = mass
+        if not np.all(np.isfinite(mass)) or np.min(mass) <= 1e-100 * max(
+                float(np.max(mass)), 1e-300) or np.min(mass_emb) <= 0:
+            # the property quantifies over classes with positive weighted
+            # mass; a class that died out has no defined estimator
+            tr.count('probe:class_without_mass_fit_not_judged_further')
+            break
         slack = 2 * K * eps
         w = models.broadcast_weight(kind, model, aff_shape)
         msg = S.check_weights(w, aff, sal_b, wca, slack=slack)
